@@ -592,11 +592,15 @@ func ZZ_C12_gc() {
 	zzAssert(len(before.Value) == len(after.Value) && bytes.Equal(before.Value, after.Value), "gc.read-at-or-above-safe-point-preserved")
 	r1 := w.raw(key)
 	zzAssert((r0.lock == nil) == (r1.lock == nil), "gc.lock-untouched")
+	survivors := 0
 	for i := range r1.vals {
 		if r1.vals[i].commitTS <= safe {
+			survivors++
 			zzAssert(r1.vals[i].valueType == typePut, "gc.only-a-put-survives-below-safe-point")
 		}
 	}
+	zzAssert(survivors <= 1, "gc.at-most-one-version-survives-below-safe-point")
+	zzAssert(len(r1.vals) <= len(r0.vals), "gc.adds-nothing")
 }
 
 // ---- cases where the reference is TiKV's definition --------------------------
